@@ -8,7 +8,7 @@ from typing_extensions import TypeAlias
 
 from pane.classes import PaneBase, field
 from pane.converters import UnionConverter
-from pane.convert import Convertible, DataType, into_data, ConverterHandlers
+from pane.convert import Convertible, DataType, into_data, make_converter, ConverterHandlers
 from pane.annotations import (
     Positive, NonNegative, Negative, NonPositive, Finite,
     len_range,
@@ -136,11 +136,14 @@ class ValueOrListConverter(UnionConverter):
     def into_data(self, val: t.Any) -> DataType:
         if not isinstance(val, ValueOrList):
             return into_data(val)
-        # an unparameterized ValueOrList has item type Any: serialize items by their runtime type instead
-        ty = None if self.ty in (t.Any, type(t.Any)) else self.ty
-        return t.cast(ValueOrList[t.Any], val).map(
-            lambda v: into_data(v, ty)
-        )._inner
+        if self.ty in (t.Any, type(t.Any)):
+            # an unparameterized ValueOrList has item type Any: serialize items by their runtime type instead
+            def item_into_data(v: t.Any) -> DataType:
+                return make_converter(type(v), self.handlers).into_data(v)
+        else:
+            # (the item converter carries the custom converters in effect)
+            item_into_data = self.converters[0].into_data
+        return t.cast(ValueOrList[t.Any], val).map(item_into_data)._inner
 
 
 class YAMLDocList(list):  # type: ignore
